@@ -184,6 +184,11 @@ impl Prop for P {
         }
         let mut route_docs = doc_universe(2, g, true, false);
         route_docs.extend(table_slice(tier.pick(100, 1000)));
+        // documents with fragment markers (incl. markers after the last text)
+        let ids = id_universe(1);
+        let step = tier.pick(3, 1);
+        route_docs.extend(ids.iter().step_by(step).cloned());
+        hist_docs.extend(ids.into_iter().step_by(tier.pick(40, 8)));
         Box::new(S { hist_docs, route_docs, hist_len: tier.pick(3, 4), widths: vec![0, 1, 3, 7, 20], route_maxw: tier.pick(12, 40) })
     }
     fn replay(&self, case: &Value, cx: &mut Cx) {
